@@ -621,7 +621,8 @@ pub fn run_c16(cfg: &Cfg) -> i32 {
          distinct = distinct configurations; non-trivial = at least two statements",
     );
     let n = cfg.count(20_000, 2_000_000);
-    let names_plain = ["fltr-a", "fltr-b", "p.3", "q_4", "AS65000-in", "zz", "m-7", "n-8", "o-9"];
+    // (names are case-sensitive: FLTR-A, Fltr-A and fltr-a are three statements)
+    let names_plain = ["fltr-a", "fltr-b", "p.3", "q_4", "AS65000-in", "zz", "m-7", "n-8", "o-9", "FLTR-A", "Fltr-A", "as65000-IN", "ZZ"];
     // names that need escaping, and names whose boundary whitespace is part of the name
     let names_esc = ["a&b", "x<y", "it's", " lead", "trail ", "in ner", "tab\tx "];
     for i in 0..n {
